@@ -115,6 +115,8 @@ class GeckoUdpSocket:
     def queue_send(self, protocol_handler: GeckoUdpProtocolHandler, destination: tuple):
         """Queue a message to be sent by the worker thread"""
         with self._lock:
+            # Remember where it goes now, a retry can fire before the first send
+            protocol_handler.last_destination = destination
             self._send_handlers.append((protocol_handler, destination))
 
     def get_and_increment_sequence_counter(self, command: bool):
